@@ -111,29 +111,71 @@ def confirm(d):
     return res
 
 
-def screen(d, prop, tier, seed="0"):
+def keyset(keepdir, prop):
+    import glob
+    sys.path.insert(0, "/verif/lib")
+    import vlib
+    ks = {}
+    for f in glob.glob(os.path.join(keepdir, "*")):
+        try:
+            for line in open(f):
+                try:
+                    d = json.loads(line)
+                except Exception:
+                    continue
+                if d.get("prop") == prop:
+                    ks.setdefault(vlib.failure_key(d), d)
+        except Exception:
+            pass
+    return ks
+
+
+def screen(d, prop, tier, seed="0", base=None):
+    """base: directory holding the clean tree's keep dirs (<base>/<prop>.<tier>) and logs; detection = a failure key the clean
+    run does not have (or, for checks without failure files, a VIOLATION where the clean run printed none)."""
     tag = "s_" + d.strip("/").replace("/", "_")[-20:] + f"_{prop}_{tier}_{seed}"
     wt = worktree(tag)
     vr = f"/tmp/vrun/{tag}"
+    keep = f"/tmp/vrun/{tag}.keep"
     try:
         ok, st = apply(wt, os.path.join(d, "patch.diff"))
         if not ok:
-            return {"dir": d, "applies": False}
+            return {"dir": d, "applies": False, "out": st[-500:]}
         shutil.rmtree(vr, ignore_errors=True)
+        shutil.rmtree(keep, ignore_errors=True)
         os.makedirs("/tmp/vrun", exist_ok=True)
         shutil.copytree("/verif", vr, ignore=shutil.ignore_patterns("out", ".git", "proto", "seeded"))
-        env = dict(ENV, VERIF_REPO=wt, VERIF_SEED=seed, VERIF_TIER=tier)
+        env = dict(ENV, VERIF_REPO=wt, VERIF_SEED=seed, VERIF_TIER=tier, VERIF_KEEP=keep)
         rc, out = sh(f"./vcheck {prop} {tier}", cwd=vr, timeout=4 * 3600, env=env)
         viol = [l for l in out.splitlines() if l.startswith("VIOLATION")]
-        detail = [l for l in out.splitlines() if l.startswith("  ") or "violation" in l.lower()][:12]
-        return {"dir": d, "prop": prop, "tier": tier, "seed": seed, "exit": rc, "violations": len(viol), "detail": detail, "tail": out[-700:] if rc == 2 else ""}
+        res = {"dir": d, "prop": prop, "tier": tier, "seed": seed, "exit": rc, "violation_lines": len(viol), "tail": out[-700:] if rc == 2 else ""}
+        if base:
+            bk = keyset(os.path.join(base, f"{prop}.{tier}"), prop)
+            sk = keyset(keep, prop)
+            new = [k for k in sk if k not in bk]
+            res["base_keys"], res["seed_keys"], res["new_keys"] = len(bk), len(sk), len(new)
+            res["new_samples"] = [{k: sk[x].get(k) for k in ("api", "mode", "pattern", "hay", "args", "want", "got", "strategy", "scope", "cfg")} for x in new[:3]]
+            blog = os.path.join(base, f"{prop}.{tier}.log")
+            bviol = sum(1 for l in open(blog) if l.startswith("VIOLATION")) if os.path.exists(blog) else None
+            res["base_violation_lines"] = bviol
+            # non-file violations (stage-level): sample lines that mention api kinds not present in the baseline log
+            btxt = open(blog).read() if os.path.exists(blog) else ""
+            extra = [l.strip()[:300] for l in out.splitlines() if l.startswith("   {") and l.strip()[:120] not in btxt]
+            res["new_detail_lines"] = extra[:3]
+            res["detected"] = bool(new) or (rc == 1 and bviol == 0) or bool(extra and not sk and not bk)
+        else:
+            res["detected"] = rc == 1
+            res["detail"] = [l.strip()[:300] for l in out.splitlines() if l.startswith("   {")][:3]
+        return res
     finally:
         drop(wt)
         shutil.rmtree(vr, ignore_errors=True)
+        shutil.rmtree(keep, ignore_errors=True)
 
 
 if __name__ == "__main__":
     if sys.argv[1] == "confirm":
         print(json.dumps(confirm(sys.argv[2]), indent=1))
     elif sys.argv[1] == "screen":
-        print(json.dumps(screen(*sys.argv[2:6]), indent=1))
+        a = sys.argv[2:]
+        print(json.dumps(screen(a[0], a[1], a[2], a[3] if len(a) > 3 else "0", a[4] if len(a) > 4 else None), indent=1))
